@@ -28,7 +28,8 @@ RULE = ("exhaustive: all sequences of length 0..3 over 27 letters (10 domain ope
         "domain operation that changed the series; distinct by (base, letter sequence) or case index."
         " Round-4 classes: truncation bounds as ratio / absolute / mixed, flags positionally or by keyword, every operation in a drawn call form; the pipeline oracle includes the unmatched input the stretch started from."
         " Round-6 classes: a 'default_grid' kind - Weaver(None, y) on 2200..6000 samples rescaled / shifted with plain Python ints (x 10**6, + 1.7e9)."
-        " Round-7 classes: repeat counts of 257..399 on short series.")
+        " Round-7 classes: repeat counts of 257..399 on short series."
+        " Round-8 classes: ratio / value bounds of truncate_by_value as 0-d / 1-element arrays (mutable objects that are applied twice).")
 REQUIRED_MONITORS = ["c08:default_grid", "c08:step", "c08:reshape_keeps_reference", "c08:pipeline", "c08:commute"]
 ASSUMPTIONS = ["operations are applied with admissible arguments only (inadmissible letters end an enumerated history)",
                "histories longer than 8 and arbitrary argument reals are sampled"]
